@@ -52,6 +52,7 @@ type Opts struct {
 	SnapCount   int    // default 100000
 	KeepBackup  int    // default 2
 	KeepDir     bool   // Stop() leaves the directory
+	TickMs      int    // default 20
 }
 
 // Start a single-node server with `parts` partitions of namespace "default" (replicator 1).
@@ -77,12 +78,15 @@ func StartWith(o Opts) (*Node, error) {
 	if o.KeepBackup == 0 {
 		o.KeepBackup = 2
 	}
+	if o.TickMs == 0 {
+		o.TickMs = 20
+	}
 	os.MkdirAll(dir, 0o755)
 	ioutil.WriteFile(path.Join(dir, "myid"), []byte("1"), 0o644)
 	engine.VerifSetMemType(0)
 	raftAddr := fmt.Sprintf("http://127.0.0.1:%d", basePort+2)
 	conf := server.ServerConfig{ClusterID: "verif", DataDir: dir, RedisAPIPort: basePort, HttpAPIPort: basePort + 1, LocalRaftAddr: raftAddr,
-		BroadcastAddr: "127.0.0.1", TickMs: 20, ElectionTick: 5, KeepBackup: o.KeepBackup, KeepWAL: 2}
+		BroadcastAddr: "127.0.0.1", TickMs: o.TickMs, ElectionTick: 5, KeepBackup: o.KeepBackup, KeepWAL: 2}
 	conf.RocksDBOpts.EngineType = o.Engine
 	srv, err := server.NewServer(conf)
 	if err != nil {
@@ -113,7 +117,7 @@ func StartWith(o Opts) (*Node, error) {
 		ready := 0
 		for i := 0; i < parts; i++ {
 			nn := srv.GetNamespaceFromFullName(NS + "-" + strconv.Itoa(i))
-			if nn != nil && nn.Node.IsLead() && nn.IsReady() {
+			if nn != nil && nn.Node.IsLead() && nn.IsReady() && nn.IsNsNodeFullReady(true) {
 				ready++
 			}
 		}
